@@ -54,12 +54,12 @@ def cases(tier, rng, dist):
                     op["method"] = rng.choice(["minP", "maxT"]); op["alts"] = rng.choice(["greater", "two-sided"])
             ops.append(op)
         dist.add("randomizer", "strata" if strat else "group"); dist.add("n_ops", len(ops)); dist.add("labels", k)
-        yield {"f": "history", "g": g, "strata": strata, "resp": resp, "ops": ops, "strlabels": rng.random() < 0.4, "aseed": rng.randint(0, 10**9)}
+        yield {"f": "history", "g": g, "strata": strata, "resp": resp, "ops": ops, "strlabels": False, "labset": rng.choice(["int", "int", "str", "wide", "neg"]), "aseed": rng.randint(0, 10**9)}
     for _ in range(N // 2):
         n = rng.randint(2, 8); k = rng.choice([1, 2, 2, 3])
         g = [rng.randrange(k) for _ in range(n)]
         resp = [[rng.choice([rng.randint(-5, 5), round(rng.gauss(0, 2), 2)]) for _ in range(2)] for _ in range(n)]
-        yield {"f": "testfn", "g": g, "resp": resp, "fn": rng.choice(["mean_diff", "ttest", "anova"]), "idx": rng.randrange(2), "strlabels": rng.random() < 0.4}
+        yield {"f": "testfn", "g": g, "resp": resp, "fn": rng.choice(["mean_diff", "ttest", "anova"]), "idx": rng.randrange(2), "strlabels": False, "labset": rng.choice(["int", "str", "wide", "neg"])}
     yield {"f": "types"}
     for s in range(6 if tier == "quick" else 30):
         yield {"f": "repro", "seed": 100 + s, "strat": bool(s % 2)}
@@ -68,12 +68,25 @@ def cases(tier, rng, dist):
 LAB = ["a", "b", "c", "d"]
 
 
+# label alphabets: the model works with the rank of a label in sorted order; numeric labels whose string order
+# differs from their numeric order (2 < 10 < 100, -20 < -3 < -1) must still be taken in NUMERIC sorted order
+LABSETS = {"str": LAB, "wide": [2, 10, 100, 1000], "neg": [-20, -3, -1, 7]}
+
+
+def labset(c):
+    if c.get("labset") in LABSETS:
+        return LABSETS[c["labset"]]
+    return LAB if c.get("strlabels") else None
+
+
 def labels_of(c):
-    return [LAB[v] for v in c["g"]] if c.get("strlabels") else list(c["g"])
+    L = labset(c)
+    return [L[v] for v in c["g"]] if L else list(c["g"])
 
 
 def back(c, arr):
-    return [LAB.index(v) if c.get("strlabels") else int(v) for v in arr]
+    L = labset(c)
+    return [L.index(v if isinstance(v, str) else int(v)) if L else int(v) for v in arr]
 
 
 def mk_tests(spec):
